@@ -21,9 +21,9 @@ let run_glob ic =
         let k = e.[0] and p = String.sub e 2 (String.length e - 2) in
         insert root (split_on '/' p) (k = 'd')) (split_on ',' tree);
       let t = to_node root in
-      let pat = List.map (fun s -> if s = "**" then SDouble else SPat (bytes_of_string s)) (split_on '/' pattern) in
+      let pat = bytes_of_string pattern in
       let show l = let l = List.sort_uniq compare (List.map (fun p -> String.concat "/" (List.map string_of_bytes p)) l) in
         if l = [] then "-" else String.concat "," l in
-      let a = show (expand t pat) and b = show (glob_spec t pat) in
+      let a = show (expand_pat t pat) and b = show (glob_spec_pat t pat) in
       print_endline (if a = b then a else "MODEL-WALKER-DISAGREES-WITH-SPEC " ^ a ^ " vs " ^ b)
     | _ -> print_endline "BADCASE")
